@@ -349,6 +349,9 @@ func (g *Gen) GenEdit(c int, root *yjson.Object) *Edit {
 			}
 		default:
 			e.K = "r.edel"
+			if g.on("tree_noedel") {
+				e.K, e.S = "r.eins", g.treeText(c)
+			}
 		}
 		return e
 	case "treestyle":
